@@ -144,6 +144,22 @@ class Closure(object):
         self.qualname = qualname
 
 
+class LocalClass(object):
+    """a class statement inside the function under analysis whose body only defines methods (nested defs) and aliases of
+    them: the class is its table of closures"""
+
+    def __init__(self, name, members):
+        self.name = name
+        self.members = members        # attribute name -> Closure
+
+
+class LocalInstance(object):
+    """an instance of a LocalClass created by calling it without arguments (no __init__ / __new__ in the class body)"""
+
+    def __init__(self, cls):
+        self.cls = cls
+
+
 class State(object):
     __slots__ = ("env", "heap", "pc", "trace", "labels", "exc_stack", "ghost")
 
@@ -1150,6 +1166,24 @@ class Executor(object):
         st.env[s.name] = Closure(s, st.env, qn)
         yield st, None
 
+    def st_ClassDef(self, st, s):
+        # a local class: only `class X(object):` with a body of method definitions, aliases `a = b` of them, a docstring, pass
+        if s.decorator_list or s.keywords or [ast.unparse(b) for b in s.bases] not in ([], ["object"]):
+            raise Unsupported("local class with bases / decorators (line %d)" % s.lineno)
+        members = {}
+        for b in s.body:
+            if isinstance(b, ast.FunctionDef) and not b.decorator_list:
+                members[b.name] = Closure(b, st.env, "%s.<locals>.%s.%s" % (self.cur[0].qualname, s.name, b.name))
+            elif isinstance(b, ast.Assign) and len(b.targets) == 1 and isinstance(b.targets[0], ast.Name) and \
+                    isinstance(b.value, ast.Name) and b.value.id in members:
+                members[b.targets[0].id] = members[b.value.id]
+            elif isinstance(b, ast.Pass) or (isinstance(b, ast.Expr) and isinstance(b.value, ast.Constant)):
+                pass
+            else:
+                raise Unsupported("statement in a local class body (line %d)" % b.lineno)
+        st.env[s.name] = LocalClass(s.name, members)
+        yield st, None
+
     def st_Delete(self, st, s):
         outs = [(st, None)]
         for t in s.targets:
@@ -2028,6 +2062,11 @@ class Executor(object):
                 return
             for r in self.lib.call_method(self, st, f.recv, f.name, f.func, args, kwargs, node):
                 yield r
+            return
+        if isinstance(f, LocalClass):
+            if args or kwargs or "__init__" in f.members or "__new__" in f.members:
+                raise Unsupported("instantiation of a local class with arguments / a constructor (line %d)" % node.lineno)
+            yield st, LocalInstance(f)
             return
         if isinstance(f, Closure):
             for r in self.call_closure(st, f, args, kwargs, node):
